@@ -283,7 +283,24 @@ def rule_used(R):
              "%s depends only on the arena size and the retained entries (reads %s)" % (name, sorted(touched)), where=b.span)
     uac = roles.method(f, OUTBOUND, "used_after_compact")
     cl = [c for c in f.children(uac) if c.kind == "closure"]
-    R.ob("used/free-space/sum-of-len", len(cl) == 1 and chain(cl[0].local_term(0))[1][-1:] == ["len"] and is_call(peel(uac.local_term(0)), "sum"),
+    ok_sum = len(cl) == 1 and chain(cl[0].local_term(0))[1][-1:] == ["len"] and is_call(peel(uac.local_term(0)), "sum")
+    if not ok_sum:
+        # an explicit accumulator: `let mut total = 0; for entry in &self.retained { total += entry.len }; total`
+        alts = phi_alts(peel(uac.local_term(0)))
+        zero = [a for a in alts if a[0] == "const" and a[2] == 0]
+        adds = []
+        for a in alts:
+            a = peel(a)
+            if a[0] == "field" and a[1][0] == "bin":
+                a = a[1]
+            if a[0] == "bin" and a[1].startswith("Add"):
+                adds.append(a)
+        def is_len_of_entry(x):
+            r_, n_ = chain(peel(x), extra=ELEM)
+            return n_[-1:] == ["len"] and "retained" in n_
+        ok_sum = bool(zero) and len(adds) >= 1 and len(zero) + len(adds) == len(alts) and \
+            all(any(is_len_of_entry(x) for x in (a[2], a[3])) and any(any(y[0] == "loop" for y in walk(x)) or peel(x)[0] == "const" for x in (a[2], a[3])) for a in adds)
+    R.ob("used/free-space/sum-of-len", ok_sum,
          "the space needed after compaction is the sum of the entries' lengths", where=uac.span)
 
 
